@@ -4,12 +4,15 @@
 From Coq Require Import List NArith ZArith Bool.
 From Coq Require Import Strings.Byte.
 From GoBT Require Import lib.Bytes lib.VarInt model.Tx gen.Consts spec.FeeSpec model.Fees model.Change
-  proofs.FeesProofs proofs.ChangeProofs.
+  proofs.FeesProofs proofs.ChangeProofs proofs.AuditC10.
 Import ListNotations.
 Local Open Scope N_scope.
 
 (** every pre-existing output, the inputs, version and locktime are untouched whatever the verdict; at most
-    one output carrying the destination script is appended, and only when change was added *)
+    one output carrying the destination script is appended, and only when change was added.
+    (For the error results the "unchanged" half holds by construction of the model: [change_new] returns the
+    transaction it was given on FErr / FFatal / FPanic; that Go's Tx.change mutates nothing before its final
+    AddOutput is carried by the correspondence.) *)
 Theorem C10_change_preserves_outputs : forall t q s r t',
   change_new t q s = (r, t') ->
   tx_version t' = tx_version t /\ tx_ins t' = tx_ins t /\ tx_lock t' = tx_lock t /\
@@ -39,7 +42,8 @@ Theorem C10_change_fee_upper : forall t q s t', change_hyps q t s ->
 Proof. exact change_fee_upper. Qed.
 Print Assumptions C10_change_fee_upper.
 
-(** stronger than both: the repaired code leaves exactly the quoted fee, and the change output is worth
+(** (with [C10_change_fee_exact] below the slack is never used: the repaired code overpays by nothing)
+    stronger than both: the repaired code leaves exactly the quoted fee, and the change output is worth
     exactly what remained after it, which is above the dust limit *)
 Theorem C10_change_fee_exact : forall t q s t', change_hyps q t s ->
   change_new t q s = (FOk true, t') ->
@@ -63,7 +67,47 @@ Theorem C10_no_change_iff_dust : forall t q s has t', change_hyps q t s ->
 Proof. exact no_change_iff_dust. Qed.
 Print Assumptions C10_no_change_iff_dust.
 
-(** ChangeToAddress is Change with the script the address decodes to *)
+(** total outputs never exceed total inputs, stated over the mathematical (un-wrapped) sums of the amounts, not
+    over the uint64 accumulators; the inputs' sum is untouched *)
+Theorem C10_change_no_value_created_sums : forall t q s has t', change_hyps q t s ->
+  change_new t q s = (FOk has, t') -> sum_out t' <= sum_in t' /\ sum_in t' = sum_in t.
+Proof. exact change_no_value_created_sums. Qed.
+Print Assumptions C10_change_no_value_created_sums.
+
+(** when does Change succeed: a complete quote with positive byte denominators, every input carrying a
+    supported previous script, outputs not above inputs - then the result is Ok (with or without change) *)
+Theorem C10_change_succeeds : forall t q s sf df, wf_tx t -> ~ ambiguous t ->
+  N.of_nat (length (tx_outs t)) + 1 < two64 ->
+  q_std q = Some sf -> q_data q = Some df -> r_bytes sf <> 0 -> r_bytes df <> 0 ->
+  Forall input_ok (tx_ins t) -> total_out t <= total_in t ->
+  exists has t', change_new t q s = (FOk has, t').
+Proof. exact change_new_succeeds. Qed.
+Print Assumptions C10_change_succeeds.
+
+(** outputs above inputs: ErrInsufficientInputs, transaction untouched *)
+Theorem C10_change_insufficient_inputs : forall t q s, total_in t < total_out t ->
+  change_new t q s = (FErr ErrInsufficientInputs, t).
+Proof. exact change_new_insufficient. Qed.
+Print Assumptions C10_change_insufficient_inputs.
+
+(** after a Change that added change, EstimateIsFeePaidEnough(quote) is true of the result (the check the
+    ordinals flows make right after Change) *)
+Theorem C10_change_then_estimate_enough : forall t q s t', change_hyps q t s ->
+  change_new t q s = (FOk true, t') -> estimate_is_fee_paid_enough t' q = FOk true.
+Proof. exact change_then_estimate_enough. Qed.
+Print Assumptions C10_change_then_estimate_enough.
+
+(** Change is idempotent: once change has been added, a second Change to any script adds nothing and leaves
+    the transaction as it is *)
+Theorem C10_change_idempotent : forall t q s t' s2 has t'', change_hyps q t s ->
+  change_new t q s = (FOk true, t') -> change_hyps q t' s2 ->
+  change_new t' q s2 = (FOk has, t'') -> has = false /\ t'' = t'.
+Proof. exact change_idempotent. Qed.
+Print Assumptions C10_change_idempotent.
+
+(** ChangeToAddress is Change with the script the address decodes to.
+    (Holds by construction of the model: the statement unfolds [change_to_address]; the address-to-script step is
+    the parameter [d], tied to bscript.NewP2PKHFromAddress by the correspondence and to C15, not proved here.) *)
 Theorem C10_change_to_address : forall t q d,
   change_to_address t q d = match d with Some s => change_new t q s | None => (FErr ErrBadAddress, t) end.
 Proof. exact change_to_address_spec. Qed.
